@@ -3,7 +3,7 @@
 (* Serves C03 C04 C07(to) C20; Impl => Contract is evaluated on every transition (modelviol).        *)
 EXTENDS Shapes, TLC, Json
 CONSTANT MCDeep
-VARIABLES sh, M, obj, tf, dg, pn, pc, hist, viol, rt
+VARIABLES sh, M, obj, tf, dg, pn, pc, hist, viol, aux
 MCShapes == AllSessionShapes
 MCScript == <<"SetObj", "NewEmpty", "CopyTo", "FreshObj", "CopyFrom">>
 MCProps == {"C03", "C04", "C07", "C20"}
